@@ -326,6 +326,10 @@ func (e *Engine) checkCached(as []*Term) (string, Model) {
 		e.qcache[k] = c
 		return c.res, c.m
 	}
+	if !e.opts.Deadline.IsZero() && time.Now().After(e.opts.Deadline) {
+		// out of time: give the path up instead of starting another solver call
+		panic(pathEnd{"inconclusive", "time limit reached inside a path"})
+	}
 	r, m := e.solver.Check(as, true)
 	if len(e.qcache) > 400000 {
 		e.qcache = map[string]cacheEnt{}
